@@ -46,6 +46,16 @@ func (e *Effects) merge(o *Effects) bool {
 	return ch
 }
 
+// mergeProtocol takes only the protocol state (locks, events, call counters) of o.
+func (e *Effects) mergeProtocol(o *Effects) {
+	if o == nil {
+		return
+	}
+	for k := range o.Locks {
+		e.Locks[k] = true
+	}
+}
+
 type cgNode struct {
 	name    string
 	fi      *FuncInfo
@@ -65,6 +75,10 @@ type dynCall struct {
 	recvT  types.Type
 	info   *types.Info // for calls through a function value: where the callee expression lives
 	fun    ast.Expr    // the callee expression
+	// the interface method has an assumed write set ("effects" clause of an interface contract): a body scan takes
+	// that set for the heap (as the call site does) and only the protocol state (locks, events, call counters) from
+	// the possible targets. Function summaries in the call graph stay conservative and take everything.
+	assumedWrites bool
 }
 
 type callGraph struct {
@@ -81,6 +95,11 @@ func (w *World) graph() *callGraph {
 	}
 	g := &callGraph{byFunc: map[*types.Func]*cgNode{}, byLit: map[*ast.FuncLit]*cgNode{}, byMethod: map[string][]*cgNode{}}
 	w.cg = g
+	// the graph may be asked for first from inside a loop-body scan (bodyWrites), whose "skip terminating blocks"
+	// and "no callee effects" modes are about that one body only: they must not leak into the whole-program scan
+	savedSkip, savedNoCallee := w.skipTerminating, w.noCalleeEffects
+	w.skipTerminating, w.noCalleeEffects = nil, false
+	defer func() { w.skipTerminating, w.noCalleeEffects = savedSkip, savedNoCallee }()
 	for _, fi := range w.Funcs {
 		if fi.Obj == nil {
 			continue
@@ -333,7 +352,11 @@ func (w *World) effectsOfCall(info *types.Info, call *ast.CallExpr) *Effects {
 		}
 	}, func(d dynCall) {
 		for _, t := range w.resolveDyn(d) {
-			eff.merge(t.eff)
+			if d.assumedWrites {
+				eff.mergeProtocol(t.eff)
+			} else {
+				eff.merge(t.eff)
+			}
 		}
 	})
 	// the counter of this very call is advanced by the caller after the call: it is not part of the callee's effect
@@ -410,7 +433,11 @@ func (w *World) scanEffects(info *types.Info, body ast.Node) *Effects {
 			return
 		}
 		for _, t := range w.resolveDyn(d) {
-			eff.merge(t.eff)
+			if d.assumedWrites {
+				eff.mergeProtocol(t.eff)
+			} else {
+				eff.merge(t.eff)
+			}
 		}
 	}, nil)
 	return eff
@@ -594,6 +621,11 @@ func (w *World) scanDirect(info *types.Info, body ast.Node, eff *Effects, callee
 		case *ast.IncDecStmt:
 			lhs(x.X)
 		case *ast.RangeStmt:
+			if t := info.TypeOf(x.X); t != nil {
+				if _, isChan := t.Underlying().(*types.Chan); isChan {
+					w.chanEffect(info, x.X, eff, "recv")
+				}
+			}
 			if x.Tok == token.ASSIGN {
 				if x.Key != nil {
 					lhs(x.Key)
@@ -603,10 +635,10 @@ func (w *World) scanDirect(info *types.Info, body ast.Node, eff *Effects, callee
 				}
 			}
 		case *ast.SendStmt:
-			w.chanEffect(info, x.Chan, eff)
+			w.chanEffect(info, x.Chan, eff, "send")
 		case *ast.UnaryExpr:
 			if x.Op == token.ARROW {
-				w.chanEffect(info, x.X, eff)
+				w.chanEffect(info, x.X, eff, "recv")
 			}
 			if x.Op == token.AND {
 				if id, ok := stripParens(x.X).(*ast.Ident); ok {
@@ -626,7 +658,8 @@ func (w *World) scanDirect(info *types.Info, body ast.Node, eff *Effects, callee
 	})
 }
 
-func (w *World) chanEffect(info *types.Info, ch ast.Expr, eff *Effects) {
+// chanEffect: a send advances the send counters of a declared event channel, a receive its receive counters.
+func (w *World) chanEffect(info *types.Info, ch ast.Expr, eff *Effects, dir string) {
 	sx, ok := stripParens(ch).(*ast.SelectorExpr)
 	if !ok {
 		return
@@ -640,8 +673,8 @@ func (w *World) chanEffect(info *types.Info, ch ast.Expr, eff *Effects) {
 		if d.Kind == "lock" {
 			eff.Locks["L$"+name] = true
 		} else {
-			for _, sfx := range []string{"send", "recv", "sendT", "sendF", "recvT", "recvF"} {
-				eff.Locks["E$"+name+"$"+sfx] = true
+			for _, sfx := range []string{"", "T", "F"} {
+				eff.Locks["E$"+name+"$"+dir+sfx] = true
 			}
 		}
 	}
@@ -768,6 +801,7 @@ func (w *World) callEffects(info *types.Info, call *ast.CallExpr, eff *Effects, 
 		eff.Locks["G$calls."+extKey(fn)] = true
 	}
 	if recvIface {
+		assumed := false
 		if n := namedOf(recvT); n != nil && n.Obj().Pkg() != nil {
 			key := "iface:" + n.Obj().Pkg().Name() + "." + n.Obj().Name() + "." + fn.Name()
 			if ct := w.Specs.ByKey[key]; ct != nil {
@@ -775,6 +809,7 @@ func (w *World) callEffects(info *types.Info, call *ast.CallExpr, eff *Effects, 
 					for _, k := range strings.Fields(wr) {
 						eff.Writes[k] = true
 					}
+					assumed = true
 				}
 			}
 		}
@@ -783,7 +818,7 @@ func (w *World) callEffects(info *types.Info, call *ast.CallExpr, eff *Effects, 
 		case "Read", "ReadAt", "ReadByte", "ReadFull":
 			eff.Writes["M$uint8"] = true
 		}
-		dyn(dynCall{method: fn.Name(), sig: fn.Type().(*types.Signature), recvT: recvT})
+		dyn(dynCall{method: fn.Name(), sig: fn.Type().(*types.Signature), recvT: recvT, assumedWrites: assumed})
 		return
 	}
 	if g != nil {
